@@ -101,3 +101,20 @@ pub fn simd_active() -> bool {
 pub fn panic_catcher_level() -> u64 {
     crate::panic::verif_panic_catcher_level()
 }
+
+static RACE_DELAY_US: std::sync::atomic::AtomicU64 = std::sync::atomic::AtomicU64::new(0);
+
+/// Process-wide: widen the window between the two halves of check-then-act
+/// sequences marked with [`race_window`] by sleeping this many microseconds
+/// there (0 = off, the default).
+pub fn set_race_delay_us(us: u64) {
+    RACE_DELAY_US.store(us, std::sync::atomic::Ordering::SeqCst);
+}
+
+#[inline]
+pub(crate) fn race_window() {
+    let us = RACE_DELAY_US.load(std::sync::atomic::Ordering::SeqCst);
+    if us > 0 {
+        std::thread::sleep(std::time::Duration::from_micros(us));
+    }
+}
